@@ -796,10 +796,14 @@ pub mod simd {
                 ($planner:ident, $ty:ty, $a:expr, $b:expr) => {{
                     for (d1, d2) in [(FftDirection::Forward, FftDirection::Forward), (FftDirection::Inverse, FftDirection::Forward)] {
                         let (a, b) = ($a, $b);
-                        let r = quiet(|| { let mut p = crate::$planner::<$ty>::new().unwrap(); let _ = p.plan_fft(a, d1); let f = p.plan_fft(b, d2); (f.len(), f.fft_direction()) });
+                        let r = quiet(|| { let mut p = crate::$planner::<$ty>::new().unwrap(); let _ = p.plan_fft(a, d1); let f = p.plan_fft(b, d2);
+                            (f.len(), f.fft_direction(), f.get_inplace_scratch_len().max(f.get_outofplace_scratch_len()).max(f.get_immutable_scratch_len())) });
                         match r {
                             Err(e) => return Some(format!("{}<{}>: plan_fft({}, {:?}) then plan_fft({}, {:?}) panicked: {}", stringify!($planner), stringify!($ty), a, d1, b, d2, panic_msg(e))),
-                            Ok((l, d)) => if l != b || d != d2 { return Some(format!("{}<{}>: plan_fft({}, {:?}) then plan_fft({}, {:?}) returned len {} direction {:?}", stringify!($planner), stringify!($ty), a, d1, b, d2, l, d)); },
+                            Ok((l, d, sc)) => {
+                                if l != b || d != d2 { return Some(format!("{}<{}>: plan_fft({}, {:?}) then plan_fft({}, {:?}) returned len {} direction {:?}", stringify!($planner), stringify!($ty), a, d1, b, d2, l, d)); }
+                                if sc > 12 * b + 64 { return Some(format!("{}<{}>: plan_fft({}, {:?}) then plan_fft({}, {:?}) advertises a scratch length of {} > 12 n + 64 = {}", stringify!($planner), stringify!($ty), a, d1, b, d2, sc, 12 * b + 64)); }
+                            },
                         }
                     }
                 }};
@@ -810,6 +814,14 @@ pub mod simd {
             let mut smooth: Vec<usize> = Vec::new();
             for n in 2..smooth_limit { let mut m = n; for p in [2usize, 3, 5, 7, 11] { while m % p == 0 { m /= p; } } if m == 1 { smooth.push(n); } }
             for &a in &smooth { for &b in &smooth { if b > a && b % a == 0 { pair!(FftPlannerAvx, f32, a, b); pair!(FftPlannerAvx, f64, a, b); } } }
+            // workspace clause of C05 under history: a prime b (a length the SIMD planners may send to Bluestein's algorithm) requested after
+            // a cached a = 2^i 3^j in [2b-1, 12b] (every length that planner's Bluestein search can consider as the inner length)
+            let prime_limit: usize = it.next().and_then(|x| x.parse().ok()).unwrap_or(0);
+            for b in 37..prime_limit {
+                if !is_prime_naive(b) { continue; }
+                let mut p2 = 4usize;
+                while p2 <= 12 * b { let mut a = p2; while a <= 12 * b { if a >= 2 * b - 1 { pair!(FftPlannerAvx, f32, a, b); pair!(FftPlannerAvx, f64, a, b); pair!(FftPlannerSse, f64, a, b); } a *= 3; } p2 *= 2; }
+            }
             return None;
         }
         if which.starts_with("simd_history") {
